@@ -159,18 +159,79 @@ fn case(t0: &mut Tape, w: &Worker) -> CaseResult {
     Ok(out)
 }
 
+/// More matching packets than the writer buffers (2^20 packets) so that it has to write part of the output before the
+/// end of the run: the output must still be exactly the matching packets, once each, in order.
+fn huge_output_case(i: u64, w: &Worker) -> CaseResult {
+    let n: usize = (1 << 20) + 1500 + (i as usize % 5) * 997;
+    let mut bytes: Vec<u8> = Vec::with_capacity(n * 64);
+    let mut expected: Vec<u8> = Vec::with_capacity(n * 64);
+    let keep_link = 5u8;
+    for k in 0..n {
+        let other = k % 1000 == 999;
+        let r = Rdh { link_id: if other { 6 } else { keep_link }, fee_id: fee_id(3, 0, 4), orbit: (k / 2) as u32, pages_counter: (k % 2) as u16, stop_bit: (k % 2) as u8, packet_counter: k as u8, ..Rdh::default() };
+        let mut p = Packet::new(r);
+        p.fix_sizes();
+        let e = p.encode();
+        if !other {
+            expected.extend_from_slice(&e);
+        }
+        bytes.extend_from_slice(&e);
+    }
+    let to_file = i % 2 == 0;
+    let inp = w.write("huge_in.raw", &bytes);
+    let out_file = w.path("huge_out.raw");
+    let mut args = vec![inp.display().to_string(), "--filter-link".to_string(), keep_link.to_string()];
+    if to_file {
+        args.extend(["-o".to_string(), out_file.display().to_string()]);
+    }
+    let mut spec = RunSpec::new(args, Input::File(inp.clone()));
+    spec.timeout = std::time::Duration::from_secs(300);
+    let o = cli::run(&w.cli, &spec);
+    let got = if to_file { std::fs::read(&out_file).unwrap_or_default() } else { o.stdout.clone() };
+    let _ = std::fs::remove_file(&out_file);
+    let _ = std::fs::remove_file(&inp);
+    let mut out = CaseOut::default();
+    out.execs = 1;
+    if o.timed_out {
+        out.labels.push("inconclusive:timeout".into());
+        return Ok(out);
+    }
+    let detail = json!({"packets": n, "matching": expected.len() / 64, "destination": if to_file { "file" } else { "stdout" }, "cmd": spec.describe(), "exit": o.code, "output_len": got.len(), "expected_len": expected.len()});
+    if o.crash_signature().is_some() || o.code != Some(0) {
+        return Err(Fail::new(format!("C08:huge-output:run-failed:{}", o.crash_signature().unwrap_or_else(|| format!("exit{:?}", o.code))), "filter run with more than 2^20 matching packets crashed or exited non-zero", detail));
+    }
+    if got != expected {
+        let first = got.iter().zip(expected.iter()).position(|(a, b)| a != b).unwrap_or(got.len().min(expected.len()));
+        return Err(Fail::new(
+            format!("C08:huge-output:{}", if got.len() > expected.len() { "extra-bytes" } else if got.len() < expected.len() { "truncated" } else { "altered" }),
+            format!("output of {} bytes differs from the {} bytes of the matching packets (first difference at byte {first}, packet {})", got.len(), expected.len(), first / 64),
+            detail,
+        ));
+    }
+    out.nontrivial = true;
+    out.fingerprint = n as u64 ^ to_file as u64;
+    out.labels.push(format!("huge_output:{}", if to_file { "file" } else { "stdout" }));
+    if w.take_sample() {
+        out.sample = Some(detail);
+    }
+    Ok(out)
+}
+
 pub fn build() -> Property {
     Property {
         id: "C08",
         rule: "G_frame well-framed streams (any header values outside RDH0, payload sizes 0..10000, packet counts incl. 99..101 / 199..201 / 300, colliding link / FEE / stave populations; every RDH0 passes the documented pre-check because any packet may \
                become the first packet of an output) x filter kind {link, FEE, layer/stave} x destination {-o file, -o stdout, default stdout} (for every other input the destination file exists beforehand and is longer than the output) x source {file, pipe}. The tool is run once per distinct filter value present plus absent values, \
                then again on every output. Oracle (independent walker + predicate): output == concatenation in input order of exactly the matching packets; the outputs of all distinct values cover every packet exactly once; every output walks as a \
-               well-framed chain; filter(output) == output; rdhs_filtered == number of matching packets. Non-trivial = >= 2 distinct values present and a non-empty payload; distinct by stream hash x kind x destination x source.",
+               well-framed chain; filter(output) == output; rdhs_filtered == number of matching packets. Non-trivial = >= 2 distinct values present and a non-empty payload; distinct by stream hash x kind x destination x source. Phase huge_output: one (thorough: four) stream of more than 2^20 matching RDH-only packets (the writer buffers 2^20 packets before it writes for the first time), to a file / to stdout: output byte-identical to the matching packets.",
         assumptions: vec!["every packet's RDH0 passes the pre-check and carries a known system id (a derived file starts with an arbitrary packet of the input)".into()],
-        phases: vec![Phase {
-            name: "cli_filter_write",
-            kind: PhaseKind::Gen { cases: (1600, 12000), tape_len: 6000, f: Box::new(case) },
-            threads: 16,
-        }],
+        phases: vec![
+            Phase {
+                name: "cli_filter_write",
+                kind: PhaseKind::Gen { cases: (1600, 12000), tape_len: 6000, f: Box::new(case) },
+                threads: 16,
+            },
+            Phase { name: "huge_output", kind: PhaseKind::Enum { n: (1, 4), exhaustive: (false, false), f: Box::new(huge_output_case) }, threads: 2 },
+        ],
     }
 }
